@@ -515,6 +515,10 @@ def tolerance_facts(src, cls):
         if nm not in ("root_scalar", "root", "brentq"):
             continue
         kw = {k.arg: k.value for k in c.keywords if k.arg}
+        plain = all(k.arg for k in c.keywords)            # no **kwargs
+
+        def const(e):
+            return e.value if isinstance(e, ast.Constant) else object()
         if nm == "root":
             opt = kw.get("options")
             x = None
@@ -522,12 +526,29 @@ def tolerance_facts(src, cls):
                 for k, v in zip(opt.keys, opt.values):
                     if isinstance(k, ast.Constant) and k.value == "xtol":
                         x = v
-            out.append((c.lineno, "RootHybr", classify(x), classify(kw.get("tol"))))
+                plain = plain and [const(k) for k in opt.keys] == ["xtol"]
+            else:
+                plain = False
+            plain = plain and set(kw) == {"method", "options"} and \
+                const(kw["method"]) == "hybr" and len(c.args) == 2
+            out.append((c.lineno, "RootHybr", classify(x), classify(kw.get("tol")), plain))
         else:
+            plain = plain and set(kw) <= {"bracket", "method", "xtol", "rtol", "x0", "x1",
+                                          "args"} and (
+                "method" not in kw or const(kw["method"]) in ("brentq", "secant")) and \
+                len(c.args) <= 2
             out.append((c.lineno, "RootScalar", classify(kw.get("xtol")),
-                        classify(kw.get("rtol"))))
+                        classify(kw.get("rtol")), plain))
     return sorted(out)
 
+
+EOM_SHAPES = {
+    "(c1, c2, Tplus, Tminus, velocityMid) = self.hydrodynamics.findHydroBoundaries("
+    "wallVelocity)": "KAssignBoundaries",
+    "c1, c2, Tplus, Tminus, velocityMid = self.hydrodynamics.findHydroBoundaries("
+    "wallVelocity)": "KAssignBoundaries",
+}
+HANDOVER = {"c1", "c2", "Tplus", "Tminus", "velocityMid", "wallVelocity"}
 
 PATH_SHAPES = {
     "vp, vm, Tp, Tm = self.matchDeton(vwTry)": "KAssignDeton",
@@ -541,9 +562,42 @@ PATH_SHAPES = {
 }
 
 
+def handover_facts(eom_src):
+    """EOM.wallPressure: the constants handed to the wall equations are those returned by
+    self.hydrodynamics.findHydroBoundaries(wallVelocity), unmodified: the single definition
+    of (c1, c2, Tplus, Tminus, velocityMid), no other store to them or to wallVelocity, and
+    the call of _intermediatePressureResults passes these very names"""
+    tree = ast.parse(eom_src)
+    node = [n for n in tree.body if isinstance(n, ast.ClassDef) and n.name == "EOM"]
+    if not node:
+        raise TranslateError("class EOM not found")
+    fns = {f.name: f for f in node[0].body if isinstance(f, ast.FunctionDef)}
+    if "wallPressure" not in fns:
+        raise TranslateError("method EOM.wallPressure not found")
+    fn = fns["wallPressure"]
+    out = []
+    for st in ast.walk(fn):
+        if isinstance(st, (ast.Assign, ast.AugAssign, ast.AnnAssign, ast.For, ast.With,
+                           ast.NamedExpr)) and _stored(st) & HANDOVER:
+            if isinstance(st, (ast.For, ast.With)):
+                continue              # their inner assignments are visited themselves
+            out.append(("MWallPressure", st.lineno,
+                        EOM_SHAPES.get(ast.unparse(st), "KOther")))
+        if isinstance(st, ast.Call) and isinstance(st.func, ast.Attribute) and \
+                st.func.attr == "_intermediatePressureResults":
+            names = [a.id if isinstance(a, ast.Name) else None for a in st.args]
+            ok = not any(k.arg is None or k.arg in ("c1", "c2", "velocityMid", "Tplus",
+                                                     "Tminus") for k in st.keywords) and \
+                len(names) >= 9 and names[3:6] == [
+                "c1", "c2", "velocityMid"] and names[7:9] == ["Tplus", "Tminus"]
+            out.append(("MWallPressure", st.lineno, "KPassBoundaries" if ok else "KOther"))
+    return sorted(out, key=lambda f: f[1])
+
+
 def path_facts(src, cls, methods):
-    """every `return` and every (re)definition of vp/vm/Tp/Tm in the given methods (nested
-    closures excluded), classified by its exact shape; anything else is KOther"""
+    """every `return`, every (re)definition of vp/vm/Tp/Tm, every store to a PARAMETER and
+    every attribute / subscript store in the given methods (nested closures excluded),
+    classified by its exact shape; anything else is KOther"""
     tree = ast.parse(src)
     node = [n for n in tree.body if isinstance(n, ast.ClassDef) and n.name == cls]
     if not node:
@@ -557,8 +611,11 @@ def path_facts(src, cls, methods):
         if isinstance(st, ast.Return):
             out.append((m, st.lineno, PATH_SHAPES.get(ast.unparse(st), "KOther")))
         elif isinstance(st, (ast.Assign, ast.AugAssign, ast.AnnAssign)):
-            if _stored(st) & {"vp", "vm", "Tp", "Tm"}:
+            if _stored(st) & ({"vp", "vm", "Tp", "Tm"} | params[m]):
                 out.append((m, st.lineno, PATH_SHAPES.get(ast.unparse(st), "KOther")))
+            elif any(isinstance(n, (ast.Attribute, ast.Subscript)) and
+                     isinstance(n.ctx, ast.Store) for n in ast.walk(st)):
+                out.append((m, st.lineno, "KOther"))     # sol.root = ..., self.x = ...
         elif isinstance(st, (ast.For, ast.While, ast.With)) and \
                 _stored(st) & {"vp", "vm", "Tp", "Tm"} and not any(
                     isinstance(c, (ast.Assign, ast.AugAssign)) for c in ast.walk(st)):
@@ -569,30 +626,43 @@ def path_facts(src, cls, methods):
             elif isinstance(c, ast.ExceptHandler):
                 for cc in c.body:
                     walk(cc, m)
+    params = {}
     for name, tag in methods:
         if name not in fns:
             raise TranslateError("method %s not found" % name)
+        params[tag] = {a.arg for a in fns[name].args.args} - {"self"}
+        if fns[name].decorator_list:
+            out.append((tag, fns[name].lineno, "KOther"))
         for st in fns[name].body:
             walk(st, tag)
+        for n in ast.walk(fns[name]):
+            if isinstance(n, ast.NamedExpr) and isinstance(n.target, ast.Name) and \
+                    n.target.id in ({"vp", "vm", "Tp", "Tm"} | params[tag]):
+                out.append((tag, n.lineno, "KOther"))
     return out
 
 
-def generate(hydro_src, template_src, helpers_src):
+def generate(hydro_src, template_src, helpers_src, eom_src=None):
     """-> (coq text, spans, notes)"""
     notes = _Notes()
     trh, dh = gen_hydrodynamics(hydro_src, helpers_src, notes)
     trt, dt = gen_template(template_src, helpers_src, notes)
-    facts = [(l, k, x, r, "hydrodynamics.py") for l, k, x, r in
-             tolerance_facts(hydro_src, "Hydrodynamics")] + \
-            [(l, k, x, r, "hydrodynamicsTemplateModel.py") for l, k, x, r in
-             tolerance_facts(template_src, "HydrodynamicsTemplateModel")]
+    facts = [(l, k, x, r, "true" if pl else "false", "hydrodynamics.py")
+             for l, k, x, r, pl in tolerance_facts(hydro_src, "Hydrodynamics")] + \
+            [(l, k, x, r, "true" if pl else "false", "hydrodynamicsTemplateModel.py")
+             for l, k, x, r, pl in tolerance_facts(template_src,
+                                                   "HydrodynamicsTemplateModel")]
     if not facts:
         raise TranslateError("no root finder calls found")
     facts_coq = "(* tolerance keywords of every root_scalar / root call, by source line *)\n" \
         "Definition tol_facts : list tolfact :=\n  (" + "\n   :: ".join(
-            "mk_tolfact %d %s %s %s (* %s *)" % f for f in facts) + "\n   :: nil)%list."
+            "mk_tolfact %d %s %s %s %s (* %s *)" % f for f in facts) + "\n   :: nil)%list."
     pfacts = path_facts(hydro_src, "Hydrodynamics", [("findMatching", "MFindMatching"), (
         "findHydroBoundaries", "MFindHydroBoundaries")])
+    if eom_src is None:
+        import vlib
+        eom_src = vlib.read_src("equationOfMotion.py")
+    pfacts += handover_facts(eom_src)
     facts_coq += "\n(* return paths / definitions of vp,vm,Tp,Tm in findMatching and " \
         "findHydroBoundaries *)\nDefinition path_facts : list pathfact :=\n  (" + \
         "\n   :: ".join("mk_pathfact %s %d %s" % f for f in pfacts) + "\n   :: nil)%list."
